@@ -95,7 +95,7 @@ link not in the control directory, not ignored and not a conflict helper.  Its
 own content is scanned iff it is a real directory that is not in the control
 directory, not ignored (bzr: unless versioned), not a helper (bzr) and not a
 nested tree. -/
-theorem walk_child_exact (p : Path) (hs : startsWalk c p i k .walk = false) :
+theorem walk_child_exact (p : Path) (hs : startsWalk c p i .walk = false) :
     let v1 := i.versioned || onPath c p i
     (c.fmt = .bzr →
       (step c p .walk i k).1 =
@@ -119,7 +119,7 @@ theorem walk_child_exact (p : Path) (hs : startsWalk c p i k .walk = false) :
       cases i.helper <;> cases hk : (i.kind == Kind.dir) <;> cases hasCtl k <;> simp [hk, bne]
 
 /-- outside the scanned regions nothing but the named paths changes -/
-theorem idle_child_exact (p : Path) (m : Mode) (hm : m ≠ .walk) (hs : startsWalk c p i k m = false) :
+theorem idle_child_exact (p : Path) (m : Mode) (hm : m ≠ .walk) (hs : startsWalk c p i m = false) :
     step c p m i k = (i.versioned || onPath c p i, m) := by
   cases m <;> simp_all [step]
 
@@ -146,8 +146,8 @@ theorem add_nothing_else (h : smartAdd c f = .ok f') (hg : f.get q = some (i, k)
   · exact Or.inl hp
   · right
     have hp' : onPath c q i = false := by simpa using hp
-    have hsw : startsWalk c q i k m' = false := by
-      cases hsw : startsWalk c q i k m' with
+    have hsw : startsWalk c q i m' = false := by
+      cases hsw : startsWalk c q i m' with
       | false => rfl
       | true =>
         exfalso
